@@ -580,6 +580,43 @@ def log_floor_configs():
     return st.one_of(st.none(), st.none(), st.none(), st.sampled_from([{"LOG_FLOOR_VALUE": 1e-3}, {"LOG_FLOOR_VALUE": 1e-9}, {"LOG_FLOOR_VALUE": 0.25}]))
 
 
+@st.composite
+def round_linear_tri_specs(draw):
+    """Triangular banks on a linear scale with round vertices: DFT bins of power-of-two (and other round) widths fall exactly on
+    the vertices of the triangles - the ties of every 'hz < mid / hz > mid' style comparison."""
+    rate = draw(st.sampled_from([8000, 16000]))
+    n = draw(st.sampled_from([3, 7, 15, 9, 4]))
+    high = draw(st.sampled_from([rate / 2, rate / 4, 3000.0]))
+    low = draw(st.sampled_from([0.0, 0.0, 1000.0, 500.0]))
+    if high <= low:
+        low = 0.0
+    return {"alias": "tri", "num_filts": n, "low_hz": float(low), "high_hz": float(high), "sampling_rate": rate,
+            "scale": {"alias": "linear", "low_hz": 0.0, "slope_hz": 1.0}, "analytic": draw(st.booleans()), "numtype": "float"}
+
+
+
+
+def fragile_widths(top=5000):
+    return st.sampled_from(fragile_width_list(top))
+
+
+def fragile_width_list(top=5000):
+    """Buffer widths at which a grid built with a floating-point step (np.arange(0, 1, 1/w), np.arange(0, 2 pi, 2 pi/w),
+    or the same including the end point) has one point too many or too few - about a fifth of all widths. Code that
+    sizes a buffer from such a grid is right for every other width, so these are drawn on purpose."""
+    global _FRAGILE
+    if _FRAGILE is None or _FRAGILE[0] != top:
+        two_pi = 2 * np.pi
+        ws = [w for w in range(2, top)
+              if len(np.arange(0, 1, 1 / w)) != w or len(np.arange(0.0, two_pi, two_pi / w)) != w
+              or len(np.arange(0.0, two_pi + two_pi / (w - 1), two_pi / (w - 1))) != w]
+        _FRAGILE = (top, ws)
+    return _FRAGILE[1]
+
+
+_FRAGILE = None
+
+
 def tame_threshold_case(case):
     """A first-order gammatone filter decays like exp(-alpha t) only: at a threshold of 1e-5 or below its temporal support
     (and the time the constructor spends searching for it) grows to seconds per bank. Such cases get order 2."""
